@@ -340,3 +340,9 @@ where
 }
 
 impl<I: Iterator> FindUniqueMultiple for I where I::Item: Clone {}
+
+#[cfg(rustic_core_verif)]
+#[allow(missing_docs, unused_imports, dead_code, clippy::all, clippy::pedantic, clippy::nursery)]
+pub mod verif_hooks {
+    use super::*;
+}
